@@ -87,6 +87,26 @@ def worker(case, led):
                           f"leak {leak:.1e}, qnv {T.qnv_tree_violations(r)[:1]}", key + ("sector",), f, rep)
                 led.check(np.abs(T.dense_ttns(a, order) - v0).max() <= 1e-12 and np.abs(T.dense_ttns(st, order) - v0).max() <= 1e-12, f"frame:TTNS.evolve:input", "TTNS.evolve",
                           f"{method}, {'imaginary' if imag else 'real'} time: the evolved input changed", key + ("frame",), f, rep)
+        if method == "tdvp_ps2":
+            # per-bond limits (list form of max_dims) equal to the bond dimensions of the full manifold: nothing may be lost
+            from renormalizer.utils import CompressConfig, CompressCriteria
+            x = 0.3
+            tau = x / hn
+            st = set_cfg(a.copy(), method)
+            st.compress_config = CompressConfig(CompressCriteria.fixed, max_bonddim=64)
+            st.compress_config.max_dims = np.array(list(a.bond_dims) + [1])
+            key = (repr(su["shape"]), flavour, seed, method, "per-bond")
+            rep = dict(desc, x=x, sector=q, max_dims=[int(b) for b in a.bond_dims])
+            try:
+                r = st.evolve(H, tau)
+                r2 = r.evolve(H, tau) if hasattr(r, "evolve") else None
+                ref = scipy.linalg.expm(-1j * tau * Hd) @ v0
+                err = np.linalg.norm(T.dense_ttns(r, order) - ref)
+                bnd = bound(method, x, st.evolve_config, n_nodes, np.linalg.norm(v0))
+                led.check(err <= bnd, "post:TTNS.evolve[tdvp_ps2]:per_bond_limits_of_the_full_manifold_lose_nothing", "TTNS.update_2site",
+                          f"error {err:.3e} > {bnd:.3e}; bond dims {list(r.bond_dims)} for limits {list(a.bond_dims)}", key, {"method": method}, rep)
+            except Exception as e:
+                led.check(False, f"post:TTNS.evolve[{method}]:total", "TTNS.evolve", f"per-bond limits raised {type(e).__name__}: {e}", key, {"method": method}, rep)
         # multi-step history
         cur = set_cfg(a.copy(), method)
         ref = v0.copy()
@@ -105,6 +125,82 @@ def worker(case, led):
             led.check(err <= tot, f"post:TTNS.evolve[{method}]:multi_step_history", "TTNS.evolve", f"after {step + 1} steps: {err:.3e} > {tot:.3e}",
                       (repr(su["shape"]), flavour, seed, method, "hist", step), {"method": method}, desc)
             cur = nxt
+    elif kind == "vmf_derivative":
+        # contract of time_derivative_vmf (the right-hand side every VMF step integrates): mapped to the dense vector, the parameter velocity is the
+        # ORTHOGONAL PROJECTION of H psi onto the tangent space of the tree manifold at psi - for any bond dimensions (truncated manifolds included) and
+        # any norm of the state.  The tangent space is spanned by the derivatives of the dense vector with respect to the symmetry-allowed entries.
+        _, n_nodes, flavour, seed, tier = case
+        from renormalizer.tn.time_evolution import time_derivative_vmf
+        su = TU.setup(seed, n_nodes, flavour, max_dim=120)
+        if su is None:
+            return
+        bt, order, model, H, Hd, sectors, rng = su["bt"], su["order"], su["model"], su["H"], su["Hd"], su["sectors"], su["rng"]
+        desc = dict(TU.describe_tree(bt), flavour=flavour, seed=seed, shape=repr(su["shape"]))
+        for q in sectors[1:3] if len(sectors) > 2 else sectors[:1]:
+            for M in (1, 2, 3):
+                for cplx in (False, True):
+                    for scale_ in (1.0, 0.6, 1.7):
+                        a = TU.random_ttns(bt, q, M, rng, complex_=cplx)
+                        if a is None:
+                            continue
+                        a.canonicalise()
+                        a.scale(scale_, inplace=True)
+                        set_cfg(a, "tdvp_vmf")
+                        v = T.dense_ttns(a, order)
+                        masks = [np.asarray(a.get_qnmask(node)) for node in a.node_list]
+                        npar = int(sum(m.sum() for m in masks))
+                        if npar == 0 or npar > 400:
+                            continue
+                        cols = []
+                        for node, mk in zip(a.node_list, masks):
+                            keep = np.asarray(node.tensor).copy()
+                            for idx in zip(*np.nonzero(mk.reshape(keep.shape))):
+                                e = np.zeros_like(keep)
+                                e[idx] = 1.0
+                                node.tensor = e
+                                cols.append(T.dense_ttns(a, order))
+                            node.tensor = keep
+                        J = np.array(cols).T
+                        key = (repr(su["shape"]), flavour, seed, str(q), M, cplx, scale_)
+                        rep = dict(desc, sector=q, M=M, complex=cplx, scale=scale_, bond_dims=[int(x) for x in a.bond_dims], parameters=npar)
+                        try:
+                            xdot = np.asarray(time_derivative_vmf(a, H))
+                        except Exception as e:
+                            led.check(False, "post:time_derivative_vmf:total", "time_derivative_vmf", f"raised {type(e).__name__}: {e}", key, {}, rep)
+                            continue
+                        hv = Hd @ v
+                        # The code inverts the bond overlap matrices with the regularisation reg_epsilon.  On a bond whose dimension exceeds the Schmidt rank
+                        # (weight exactly zero) the inverse is 1/reg_epsilon and amplifies rounding noise (1e-16/1e-10): such states get the looser tolerance;
+                        # weights that are tiny but non-zero (within 1e4 reg_epsilon) are outside the clause.
+                        dims_ = [b.nbas for b in order]
+                        vt = v.reshape(dims_)
+                        deficient, near = False, False
+                        for node in a.node_list:
+                            if node.parent is None:
+                                continue
+                            sub, stack = [], [node]
+                            while stack:
+                                nd = stack.pop()
+                                sub += [order.index(b) for b in bt.node_list[a.node_idx[nd]].basis_sets if b in order]
+                                stack += list(nd.children)
+                            if not sub or len(sub) == len(order):
+                                continue
+                            m_ = np.moveaxis(vt, sub, list(range(len(sub)))).reshape(int(np.prod([dims_[i] for i in sub])), -1)
+                            w = np.linalg.svd(m_, compute_uv=False) ** 2
+                            rank = int(np.sum(w > 1e-20 * w.max()))
+                            deficient |= rank < node.tensor.shape[-1]
+                            near |= bool(np.any((w > 1e-20 * w.max()) & (w < 1e4 * a.evolve_config.reg_epsilon)))
+                        if near:
+                            led.ok("skipped:time_derivative_vmf:bond_weight_near_regularisation", "time_derivative_vmf", key + ("pre",), nontrivial=False)
+                            continue
+                        tol_rel = 1e-6 if not deficient else 1e-6 + 1e-14 / a.evolve_config.reg_epsilon
+                        want = J @ np.linalg.lstsq(J, hv, rcond=None)[0]
+                        got = J @ xdot
+                        err = np.linalg.norm(got - want)
+                        # the bond overlap matrices are regularised with reg_epsilon: states whose smallest bond weight is not far above it are outside the clause
+                        led.check(err <= tol_rel * max(1e-12, np.linalg.norm(hv)), "post:time_derivative_vmf:velocity_is_tangent_projection_of_H_psi", "time_derivative_vmf",
+                                  f"|J xdot - P_T H psi| = {err:.3e} (|H psi| = {np.linalg.norm(hv):.3e}, norm of the state {np.linalg.norm(v):.2f})", key, {"scale": scale_, "rank_deficient_bond": bool(deficient)}, dict(rep, rank_deficient_bond=bool(deficient)),
+                                  nontrivial=npar > len(v) // 4)
     elif kind == "conservation":
         _, n_nodes, flavour, seed, tier = case
         su = TU.setup(seed, n_nodes, flavour, max_dim=300)
@@ -225,6 +321,7 @@ def check(run):
                 for m in TREE_METHODS:
                     cases.append(("accuracy", nn, fl, m, s, run.tier))
                 cases.append(("conservation", nn, fl, s, run.tier))
+                cases.append(("vmf_derivative", nn, fl, s, run.tier))
         for m in TREE_METHODS:
             cases.append(("chain", 4, "spinqn", m, s, run.tier))
             cases.append(("chain", 4, "holstein", m, s, run.tier))
